@@ -10,6 +10,7 @@ d=json.load(open('$D/meta$k.json'))
 l=[d['property']]+[x for x in d.get('also_breaks',[]) if x!=d['property']]
 print(' '.join(x[:3] for x in l))")
   main=${ids%% *}
+  [ -n "${ONLY_MAIN:-}" ] && ids=$main
   echo "### $W/$k -> $main ($ids)"
   /verif/tools/confirm_mutant.sh $D $k $main-$W$k quick $ids
 done
